@@ -170,7 +170,7 @@ Theorem download_cancelled_passive w path answers answers' answers'' ev r1 r2 r3
   r_now r3 = [RReply x4; RReply x5] -> r_on_close r3 = [] -> r_close_after r3 = false ->
   code x4 = 426 -> code x5 <> 421 ->
   exists w', step w (ADownload path (Some answers) None) = (OReturn (RvReplies [x1; x2; x4; x5]), w') /\
-    insync w' rest /\ w_data w' = None /\
+    insync w' rest /\ w_data w' = None /\ w_cfg w' = w_cfg w /\
     wire_events (skipn (length (w_trace w)) (w_trace w')) =
       [WLine (setup_line (w_cfg w)); WReply x1; WLine (RETR_ ++ SP :: path); WReply x2; WLine ABOR_; WReply x4; WReply x5] /\
     data_events (skipn (length (w_trace w)) (w_trace w')) = [DNewObj; DConnectTo ip port true; DClose] /\
@@ -207,7 +207,7 @@ Proof.
     rewrite run_ret.
     eexists. split; [reflexivity|].
     split. { unfold insync, ready. cbn. rewrite Hs. destruct dp1, dp2, dp3; auto. }
-    split; [reflexivity|].
+    split; [reflexivity|]. split; [reflexivity|].
     trace_facts. auto.
   - destruct Tgt as (a & P1 & ->).
     erewrite (xchg PASV_ None _ _ _ _ x1); [| repeat split; auto | reflexivity | repeat split; auto | exact I].
@@ -227,7 +227,7 @@ Proof.
     rewrite run_ret.
     eexists. split; [reflexivity|].
     split. { unfold insync, ready. cbn. rewrite Hs. destruct dp1, dp2, dp3; auto. }
-    split; [reflexivity|].
+    split; [reflexivity|]. split; [reflexivity|].
     trace_facts. auto.
 Qed.
 
